@@ -89,6 +89,51 @@ def mods():
     return M
 
 
+_SITES = []
+
+
+def reset_sites():
+    if not _SITES:
+        _SITES.append(t15.config_reset_sites())
+    return _SITES[0]
+
+
+def config_reset(base, a):
+    """plugins/Config/plugin.py, reset channel [network] / reset network, re-stated FOLLOWING THE SOURCE: each of the three
+    reset statements re-seeds the node with the expression the source uses (netgroup.value / group.value) and forgets the
+    cached text iff the source does (t15.config_reset_sites; the strict shape is pinned by t15.config_reset_forgets)"""
+    r = mods().registry
+    sites = reset_sites()
+
+    def seed(k, netgroup):
+        expr = sites[k][0]
+        if expr == 'netgroup.value' and netgroup is not None:
+            return netgroup.value
+        if expr == 'group.value':
+            return base.value
+        raise RuntimeError('plugins/Config: reset statement %d re-seeds from %r, which the harness cannot follow' % (k, expr))
+
+    def forget(node, k):
+        if sites[k][1]:
+            r._cache.pop(node._name, None)
+    if a[0] == 'nc':
+        netgroup = base.get(':' + a[1])
+        changroup = netgroup.get(a[2])
+        changroup._setValue(seed(0, netgroup), inherited=True)
+        forget(changroup, 0)
+        changroup = base.get(a[2])
+        changroup._setValue(seed(1, None), inherited=True)
+        forget(changroup, 1)
+    elif a[0] == 'c':
+        changroup = base.get(a[1])
+        changroup._setValue(seed(1, None), inherited=True)
+        forget(changroup, 1)
+    elif a[0] == 'n':
+        changroup = base.get(':' + a[1])
+        changroup._setValue(seed(2, None), inherited=True)
+        forget(changroup, 2)
+
+
 def take_swallowed():
     m = mods()
     out = list(m.swallowed)
@@ -663,22 +708,16 @@ def run_tree(ctx, inp, mo):
                     elif o[0] == 'reset':
                         # plugins/Config/plugin.py: reset channel / reset network
                         if a[0] == 'nc':
-                            netgroup = base.get(':' + a[1])
-                            changroup = netgroup.get(a[2])
-                            changroup._setValue(netgroup.value, inherited=True)
+                            config_reset(base, a)
                             spec.pop(('nc', a[1], a[2]), None)
-                            changroup = base.get(a[2])
-                            changroup._setValue(base.value, inherited=True)
                             spec.pop(('c', a[2]), None)
                             outs.append(('ok', canon(q, base.value)))
                         elif a[0] == 'c':
-                            changroup = base.get(a[1])
-                            changroup._setValue(base.value, inherited=True)
+                            config_reset(base, a)
                             spec.pop(('c', a[1]), None)
                             outs.append(('ok', canon(q, base.value)))
                         elif a[0] == 'n':
-                            changroup = base.get(':' + a[1])
-                            changroup._setValue(base.value, inherited=True)
+                            config_reset(base, a)
                             spec.pop(('n', a[1]), None)
                             outs.append(('ok', canon(q, base.value)))
                         else:
@@ -827,24 +866,7 @@ def real_generation(inp, g, prev_file, out_file):
                 elif o[0] == 'reset':
                     # plugins/Config/plugin.py: reset channel [network] / reset network (shape pinned by t15.config_reset_forgets)
                     # the harness follows the source: each of the three reset statements forgets the cached text iff the source does
-                    sites = reset_sites()
-                    forget = lambda node, k: r._cache.pop(node._name, None) if sites[k] else None
-                    if a[0] == 'nc':
-                        netgroup = base.get(':' + a[1])
-                        changroup = netgroup.get(a[2])
-                        changroup._setValue(netgroup.value, inherited=True)
-                        forget(changroup, 0)
-                        changroup = base.get(a[2])
-                        changroup._setValue(base.value, inherited=True)
-                        forget(changroup, 1)
-                    elif a[0] == 'c':
-                        changroup = base.get(a[1])
-                        changroup._setValue(base.value, inherited=True)
-                        forget(changroup, 1)
-                    elif a[0] == 'n':
-                        changroup = base.get(':' + a[1])
-                        changroup._setValue(base.value, inherited=True)
-                        forget(changroup, 2)
+                    config_reset(base, a)
                 elif o[0] == 'set':
                     n_ = base if a[0] == 'g' else (base.get(a[1]) if a[0] == 'c' else (base.get(':' + a[1]) if a[0] == 'n' else base.get(':' + a[1]).get(a[2])))
                     try:
@@ -1192,13 +1214,6 @@ CORPUS_NORM = [('someLongName', 'please join #channel and then #other and then #
 TOPS = {'set': 0, 'read': 1, 'reset': 2, 'save': 3, 'reload': 4, 'forget': 5, 'inherit': 6}
 
 
-_SITES = []
-
-
-def reset_sites():
-    if not _SITES:
-        _SITES.append(t15.config_reset_sites())
-    return _SITES[0]
 
 
 def tgens_wire(inp):
@@ -1673,6 +1688,14 @@ def gtree(rng, q, hostile=False):
 CORPUS_STR = ['"', "'", '"a"', "'a'", '""', '\\', 'x\\', 'a: b', ' x ', '\n', ' \n', '\xe9', 'a#b', '"\\', '"\\"', '"a" "b"', '\x00 ', ' \x7f', '\xa0x', 'x\xa0',
               '"\\N{DASH}"', '"\\x4"', '"\\u12"', '"\\400"', '"\\8"', '"\\\n"', '"a\rb"', '\ud800', '"\ud800"', ' \ud800', '"\\U00110000"', '"\\U0010ffff"', '\U0010ffff ']
 CORPUS_TREE = [
+    # three levels, all different; reset the network+channel value: it must show the NETWORK's value again
+    {'op': 'tree', 'cls': 'registry.String', 'init': [0, 'general'],
+     'ops': [['set', ['n', 'neta'], 'net'], ['set', ['nc', 'neta', '#a'], 'netchan'], ['reset', ['nc', 'neta', '#a']], ['get', ['nc', 'neta', '#a']],
+             ['get', ['nc', 'netb', '#a']], ['get', ['c', '#a']], ['get', ['n', 'neta']], ['set', ['n', 'neta'], 'net2'], ['get', ['nc', 'neta', '#a']],
+             ['set', ['g'], 'general2'], ['get', ['nc', 'neta', '#a']], ['get', ['c', '#a']], ['reset', ['n', 'neta']], ['get', ['nc', 'neta', '#a']]]},
+    {'op': 'tree', 'cls': 'registry.Integer', 'init': [2, 1],
+     'ops': [['set', ['n', 'neta'], '2'], ['set', ['c', '#a'], '3'], ['set', ['nc', 'neta', '#a'], '4'], ['reset', ['nc', 'neta', '#a']],
+             ['get', ['nc', 'neta', '#a']], ['get', ['c', '#a']], ['get', ['nc', 'netb', '#a']]]},
     {'op': 'tree', 'cls': 'registry.String', 'init': [0, '"'], 'ops': [['get', ['c', '#a']]]},
     {'op': 'tree', 'cls': 'registry.String', 'init': [0, '"a"'], 'ops': [['get', ['nc', 'neta', '#a']], ['get', ['g']]]},
     {'op': 'tree', 'cls': 'conf.ValidPrefixChars', 'init': [0, '"'], 'ops': [['get', ['nc', 'neta', '#a']]]},
